@@ -223,6 +223,16 @@ def run(tape, scenario):
     if scenario == "crash":
         sched.crash_rate = [1, 3, 8][tape.draw("cfg/crash-rate", 3)]
         sched.crashes_left = 1
+        if tape.chance("cfg/crash-in-the-last-leavers-cleanup", 35):
+            # the crash is placed in the tail of the stop protocol: the last leaver has
+            # freed the lock directory and dies before (or while) it removes the rest
+            sched.crash_rate = 0
+
+            def in_cleanup(p, label):
+                ops = [o for o in fs.oplog[-6:] if o[0] == p.pid]
+                return bool(ops) and any(o[1] == "rmdir" and o[2] == LOCKDIR for o in ops) \
+                    and tape.chance("fault/crash-in-cleanup", 40)
+            sched.crash_when = in_cleanup
     violations = []
     state = {}           # u -> dict(inside, ethertype, addrs, pid)
     outcomes = {}
